@@ -177,6 +177,13 @@ def run_engine_batch(ctx, args, tag):
         stats = {}
     for k, v in stats.items():
         ctx.count("harness." + k, v)
+    if stats.get("hang"):
+        hung = [json.loads(l) for l in open(os.path.join(d, "engine.inputs.jsonl")) if "hang: the case" in l]
+        for c in hung[:2]:
+            if ctx.pid == "C08":
+                ctx.violation("gopatch does not terminate on this patch", {"input": {"patches": c.get("patches"), "src": c.get("src")}})
+            else:
+                ctx.broken("harness", "the implementation did not terminate on a generated case (see property C08): " + json.dumps(c.get("patches"))[:300])
     with open(os.path.join(d, "engine.cases")) as fin, open(os.path.join(d, "engine.model"), "w") as fout:
         r = subprocess.run([ctx.driver], stdin=fin, stdout=fout, stderr=subprocess.PIPE, text=True, timeout=3600)
     if r.returncode != 0:
@@ -1179,3 +1186,488 @@ def c15(ctx):
                                             "args": args, "cwd_name": cwd_name},
                                  "observed": [g[len(root)+1:] for g in got], "specification": [w[len(root)+1:] for w in want],
                                  "reproduce": "create the tree (every .go file: 'package x'), cd into it, gopatch -p never.patch --print-only -v <args>"})
+
+# ---------------------------------------------------------------------------
+# front stream: sectioning, metavariable section, diagnostics
+
+def run_front(ctx, fcases):
+    d = ctx.scratch("front")
+    p = os.path.join(d, "in.jsonl")
+    with open(p, "w") as f:
+        for c in fcases:
+            f.write(json.dumps({"id": c["id"], "patch": c["patch"]}) + "\n")
+    r = run([ctx.harness, "front", "-inputs", p, "-out", d], timeout=1800)
+    if r.returncode != 0:
+        ctx.broken("harness", "zzverif front failed: " + r.stderr[-2000:])
+        return []
+    with open(os.path.join(d, "front.cases")) as fin:
+        m = subprocess.run([ctx.driver], stdin=fin, stdout=subprocess.PIPE, stderr=subprocess.PIPE, text=True, timeout=1800)
+    impl = open(os.path.join(d, "front.impl")).read().splitlines()
+    model = m.stdout.splitlines()
+    shutil.rmtree(d, ignore_errors=True)
+    if len(impl) != len(model) or len(impl) != len(fcases):
+        ctx.broken("driver", f"front: line counts differ impl={len(impl)} model={len(model)} cases={len(fcases)}")
+        return []
+    return list(zip(fcases, impl, model))
+
+def split_patch_text(p):
+    """-> (desc lines, header line, meta lines, body lines) of a single-change patch"""
+    lines = p.rstrip("\n").split("\n")
+    i = 0
+    desc = []
+    while i < len(lines) and lines[i].lstrip().startswith("#"):
+        desc.append(lines[i]); i += 1
+    header = lines[i]; i += 1
+    meta = []
+    while i < len(lines) and lines[i] != "@@":
+        meta.append(lines[i]); i += 1
+    body = lines[i + 1:]
+    return desc, header, meta, body
+
+def front_cases_with_faults(ctx, rng, n):
+    """multi-change patches with one header / metavariable fault at a known place"""
+    cand = [c for c in gen_cases(ctx, "mix", 300, ctx.seed, golden=False) if len(c.get("patches", [])) == 1]
+    # keep the building blocks that are accepted as they are
+    probe = run_front(ctx, [{"id": f"b{i}", "patch": c["patches"][0]} for i, c in enumerate(cand)])
+    base = [cand[i] for i, (c, impl, model) in enumerate(probe) if "(diag ok)" in impl]
+    if not base:
+        ctx.broken("generator", "no acceptable building-block patch")
+        return []
+    out = []
+    kinds = ["badname", "junk", "unknowntype", "duplicate", "duplicate2", "missingtype", "extratoken", "novar", "illegal", "none"]
+    for k in range(n):
+        nch = rng.randint(1, 4)
+        fault_at = rng.randrange(nch)
+        kind = kinds[k % len(kinds)]
+        lines = []
+        expect = None
+        for ci in range(nch):
+            desc, header, meta, body = split_patch_text(rng.choice(base)["patches"][0])
+            for _ in range(rng.randint(0, 2)):
+                lines.append(rng.choice(["", "# a comment", "   # indented comment", "#"] if ci > 0 else ["# a comment", "   # indented comment", "#"]))
+            lines += desc
+            if ci == fault_at and kind == "badname":
+                name = rng.choice(["na!me", "9lives", "a b", "x-y", "ok$", "@"])
+                pad = " " * rng.randint(0, 3)
+                header = "@" + pad + name + " @"
+                bad = next(i for i, ch in enumerate(name) if not (ch.isalpha() or ch == "_" or (i > 0 and ch.isdigit())))
+                expect = (len(lines) + 1, 1 + 1 + len(pad) + bad, "badname")
+            if ci == fault_at and kind == "junk" and ci == 0:
+                lines.append("junk here")
+                expect = (len(lines), 1, "badheader")
+            lines.append(header)
+            if ci == fault_at and kind in ("unknowntype", "duplicate", "duplicate2", "missingtype", "extratoken", "novar", "illegal"):
+                for _ in range(rng.randint(0, 2)):
+                    meta.append(rng.choice(["", "# c"]))
+                ind = " " * rng.randint(0, 2)
+                if kind == "unknowntype":
+                    meta.append(ind + "var zq9 identifer")
+                    expect = (len(lines) + len(meta), len(ind) + 9, "unknownType")
+                elif kind == "duplicate":
+                    meta.append(ind + "var zq9, zq9 expression")
+                    expect = (len(lines) + len(meta), len(ind) + 10, "duplicate")
+                elif kind == "duplicate2":
+                    meta.append("var zq9 expression")
+                    meta.append(ind + "var w1, zq9 identifier")
+                    expect = (len(lines) + len(meta), len(ind) + 9, "duplicate")
+                elif kind == "missingtype":
+                    meta.append(ind + "var zq9")
+                    expect = (len(lines) + len(meta), len(ind) + 8, "expectedIdent")
+                elif kind == "extratoken":
+                    meta.append(ind + "var zq9 expression extra")
+                    expect = (len(lines) + len(meta), len(ind) + 20, "expectedSemi")
+                elif kind == "novar":
+                    meta.append(ind + "zq9 expression")
+                    expect = (len(lines) + len(meta), len(ind) + 1, "expectedVar")
+                elif kind == "illegal":
+                    meta.append(ind + "var zq9 $ expression")
+                    expect = (len(lines) + len(meta), len(ind) + 9, "other")
+            # '#' lines inside the metavariable section do not count as lines of it, but they are lines of the file
+            lines += meta
+            lines.append("@@")
+            lines += body
+        text = "\n".join(lines) + ("\n" if rng.random() < 0.9 else "")
+        out.append({"id": f"fc{k}", "patch": text, "kind": kind if expect else "none", "expect": expect})
+    return out
+
+def diag_of(line):
+    sx = parse_sx(line)
+    d = sx_field(sx[2:], "diag") or []
+    stage = d[0] if d else "?"
+    return stage, [tuple(x) for x in d[1:]]
+
+def strip_api(line):
+    return re.sub(r" \(api \w+\)\)$", ")", line).replace("(diag ok)", "(diag pass)")
+
+@prop("C19")
+def c19(ctx):
+    ctx.rule = ("multi-change patches (1..4 changes assembled from generated single-change patches, with random '#' and blank lines "
+                "before headers and inside metavariable sections) into which one fault is injected at a generator-known line and "
+                "column: bad character in a change name, text where a header is expected, unknown metavariable type, duplicate "
+                "metavariable (same line / earlier line), missing type, extra token, missing 'var', illegal character. Compared: "
+                "(i) section.Split output and the first diagnostic stage with positions, implementation vs Lean model (Sec.split, "
+                "parseMeta on go/scanner's tokens, compileMetaErrs, mapPos); (ii) the reported line:column vs the injection point; "
+                "(iii) patch.Parse's error names the patch; (iv) the CLI exits non-zero, names the patch file and rewrites nothing. "
+                "Non-trivial = a fault was injected; distinct = distinct patch text.")
+    rng = random.Random(ctx.seed)
+    n = 300 if ctx.tier == "quick" else 20000
+    fcs = front_cases_with_faults(ctx, rng, n)
+    res = run_front(ctx, fcs)
+    cli_budget = 25 if ctx.tier == "quick" else 400
+    for c, impl, model in res:
+        ctx.evaluations += 1
+        ctx.count("fault:" + c["kind"])
+        if c["expect"]:
+            ctx.nontrivial.add(c["patch"])
+        if len(ctx.samples) < 3 and c["expect"]:
+            ctx.sample({"patch": c["patch"][:500], "fault": c["kind"], "expected_position": list(c["expect"][:2])})
+        stage, diags = diag_of(impl)
+        mstage, mdiags = diag_of(model)
+        probs = []
+        if c["expect"]:
+            want = (str(c["expect"][0]), str(c["expect"][1]), c["expect"][2])
+            if stage in ("ok", "body"):
+                probs.append(f"patch with an injected {c['kind']} fault was not rejected at its header/metavariable stage (stage {stage})")
+            elif not any(d[:3] == want for d in diags):
+                probs.append(f"diagnostic positions {diags} do not include the offending token at {want}")
+            if "(api named)" not in impl:
+                probs.append("the library API error does not name the patch file")
+        if strip_api(impl) != model and not (stage == "body" and mstage == "pass"):
+            # positions / structure differ from the model: is it a position the property speaks about?
+            if stage in ("section", "meta", "compile") or mstage in ("section", "meta", "compile"):
+                if (stage, diags) != (mstage, mdiags):
+                    probs.append(f"diagnostics differ from the specification: implementation {stage} {diags}, model {mstage} {mdiags}")
+        if probs:
+            ctx.violation("; ".join(probs[:3]), {"input": {"patch": c["patch"], "fault": c["kind"], "injected_at": c["expect"]},
+                                                  "implementation": impl[-600:], "model": model[-600:],
+                                                  "reproduce": "gopatch -p p.patch some.go  (or patch.Parse(\"p.patch\", bytes))"})
+        # CLI: rejected patches rewrite nothing and name the patch file
+        if c["expect"] and cli_budget > 0:
+            cli_budget -= 1
+            root = ctx.scratch("c19cli")
+            cl.write_tree(root, {"p.patch": c["patch"], "a.go": "package a\n\nfunc f() { foo(1) }\n"})
+            before = cl.digest(root)
+            code, out, err = cl.gopatch(ctx.gopatch, root, ["-p", "p.patch", "."])
+            e = err.decode("utf-8", "replace")
+            ctx.evaluations += 1
+            want = f"p.patch:{c['expect'][0]}:{c['expect'][1]}"
+            if code == 0 or "p.patch" not in e or want not in e or cl.digest(root) != before:
+                ctx.violation(f"CLI on a rejected patch: exit {code}, stderr {e.strip()[:300]!r}; expected non-zero exit, {want} on stderr, nothing rewritten",
+                              {"input": {"patch": c["patch"], "files": {"a.go": "package a\n\nfunc f() { foo(1) }\n"}}})
+            shutil.rmtree(root, ignore_errors=True)
+
+# --- C13 -------------------------------------------------------------------
+WORD = lambda w: re.compile(r"(?<![A-Za-z0-9_])" + re.escape(w) + r"(?![A-Za-z0-9_])")
+
+def layout_variant(rng, patch):
+    """one meaning-preserving re-layout of a single-change patch; returns (text, [transformations])"""
+    desc, header, meta, body = split_patch_text(patch)
+    done = []
+    t = rng.randrange(7)
+    if t == 0:      # '#' comment lines anywhere (not above the header: that would change the description)
+        for _ in range(rng.randint(1, 3)):
+            c = rng.choice(["# note", "#", "  # indented", "#@@ not a header"])
+            if meta and rng.random() < 0.4:
+                meta.insert(rng.randrange(len(meta) + 1), c)
+            else:
+                body.insert(rng.randrange(len(body) + 1), c)
+        done.append("comments")
+    elif t == 1:    # blank lines between metavariable declarations and at the end of the body
+        if meta:
+            meta.insert(rng.randrange(len(meta) + 1), "")
+        body.append("")
+        done.append("blank-lines")
+    elif t == 2:    # name the change
+        if header == "@@":
+            header = "@ " + rng.choice(["renamed", "x1", "_tmp"]) + " @"
+            done.append("name")
+    elif t == 3:    # rename metavariables consistently (not the import-name one)
+        names = re.findall(r"\b(mv\d+|id\d+)\b", "\n".join(meta))
+        for n in sorted(set(names)):
+            new = ("q" + n + "z")
+            meta = [WORD(n).sub(new, l) for l in meta]
+            body = [WORD(n).sub(new, l) for l in body]
+        if names:
+            done.append("rename-metavariables")
+    elif t == 4:    # regroup / reorder declarations
+        decls = []
+        for l in meta:
+            m = re.match(r"^var (.*) (expression|identifier)$", l)
+            if m:
+                for n in m.group(1).split(","):
+                    decls.append((n.strip(), m.group(2)))
+            elif l.strip():
+                return patch, []
+        rng.shuffle(decls)
+        meta = [f"var {n} {k}" for n, k in decls]
+        if decls:
+            done.append("regroup-declarations")
+    elif t == 5:    # an unchanged elision-free line as an identical -/+ pair
+        idx = [i for i, l in enumerate(body) if l.startswith(" ") and "..." not in l and l.strip() and not l.strip().startswith(("import", "package"))]
+        if idx:
+            i = rng.choice(idx)
+            body[i:i + 1] = ["-" + body[i][1:], "+" + body[i][1:]]
+            done.append("context-as-pair")
+    else:           # re-space the Go code identically on both sides
+        def respace(l):
+            if not l or l[0] not in " -+":
+                return l
+            code = l[1:]
+            if '"' in code or "`" in code or "'" in code:
+                return l
+            return l[0] + code.replace(", ", " ,  ").replace("(", "( ").rstrip() + "  "
+        body = [respace(l) for l in body]
+        done.append("respace")
+    text = "\n".join(desc + [header] + meta + ["@@"] + body) + "\n"
+    return text, done
+
+@prop("C13")
+def c13(ctx):
+    ctx.rule = ("for generated (patch, file) pairs the patch is re-laid-out by one of: '#' lines inserted in the metavariable section and the "
+                "diff, blank lines, naming the change, consistent renaming of metavariables (not import names), regrouping/reordering "
+                "declarations, writing an unchanged elision-free line as an identical -/+ pair, re-spacing the Go code identically on "
+                "both sides; the real engine's canonical result on the variant must equal its result on the original (and both must "
+                "equal the Lean model's). Descriptions: only the '#' run directly above the header is reported (checked through "
+                "section.Split vs the model). Non-trivial = the original patch rewrites the file; distinct = distinct variant text.")
+    rng = random.Random(ctx.seed)
+    n = 250 if ctx.tier == "quick" else 8000
+    cases = [c for c in gen_cases(ctx, "mix", n, ctx.seed) if len(c.get("patches", [])) == 1]
+    batch = []
+    meta_info = {}
+    for i, c in enumerate(cases):
+        try:
+            variants = [layout_variant(rng, c["patches"][0]) for _ in range(2)]
+        except Exception:
+            continue
+        batch.append({"id": f"o{i}", "patches": c["patches"], "src": c["src"]})
+        for j, (text, done) in enumerate(variants):
+            if done:
+                batch.append({"id": f"o{i}v{j}", "patches": [text], "src": c["src"]})
+                meta_info[f"o{i}v{j}"] = (f"o{i}", done)
+    d = ctx.scratch("c13")
+    p = os.path.join(d, "in.jsonl")
+    with open(p, "w") as f:
+        for b in batch:
+            f.write(json.dumps(b) + "\n")
+    res = run_engine_batch(ctx, ["-inputs", p], "c13")
+    by_id = {inp["id"]: (inp, orig, impl, model, same) for inp, orig, impl, model, same in res}
+    skipped = set(b["id"] for b in batch) - set(by_id)
+    for vid, (oid, done) in meta_info.items():
+        ctx.evaluations += 1
+        ctx.count("transform:" + "+".join(done))
+        if oid not in by_id:
+            continue   # the original patch is not accepted; nothing to compare
+        oinp, _, oimpl, omodel, osame = by_id[oid]
+        if vid not in by_id:
+            ctx.violation(f"layout variant ({'+'.join(done)}) of an accepted patch is rejected",
+                          {"input": {"original": oinp["patches"][0], "variant": [b for b in batch if b['id'] == vid][0]["patches"][0], "src": oinp["src"]}})
+            continue
+        vinp, _, vimpl, vmodel, vsame = by_id[vid]
+        if any(t.startswith("k") for t in oimpl["trace"]):
+            ctx.nontrivial.add(vinp["patches"][0])
+        if len(ctx.samples) < 3 and any(t.startswith("k") for t in oimpl["trace"]):
+            ctx.sample({"transformation": done, "original": oinp["patches"][0][:300], "variant": vinp["patches"][0][:300]})
+        if (oimpl["status"], oimpl.get("tree"), oimpl.get("imports"), oimpl.get("pkg")) != (vimpl["status"], vimpl.get("tree"), vimpl.get("imports"), vimpl.get("pkg")):
+            ctx.violation(f"the effect of the patch changed under the layout transformation {'+'.join(done)}",
+                          {"input": {"original": oinp["patches"][0], "variant": vinp["patches"][0], "src": oinp["src"]},
+                           "original_trace": oimpl["trace"], "variant_trace": vimpl["trace"]})
+    # descriptions: '#' runs directly above the header only (section.Split vs model)
+    fcs = []
+    for i, c in enumerate(cases[: (80 if ctx.tier == "quick" else 2000)]):
+        desc, header, meta, body = split_patch_text(c["patches"][0])
+        extra = [rng.choice(["# above one", "#above two", "   #   spaced  "]) for _ in range(rng.randint(0, 2))]
+        far = ["# far away", ""] if False else []
+        text = "\n".join(far + extra + desc + [header] + ["# in meta"] + meta + ["@@"] + body[:1] + ["# in body"] + body[1:]) + "\n"
+        want = [re.sub(r"^\s*#", "", l, count=1).strip() if not l.startswith(" ") else l[1:].strip() for l in extra + desc]
+        fcs.append({"id": f"d{i}", "patch": text, "want": want})
+    for c, impl, model in run_front(ctx, fcs):
+        ctx.evaluations += 1
+        sx = parse_sx(impl)
+        chs = sx_field(sx[2:], "changes") or []
+        got = [cl.sx_unquote(x) for x in (sx_field(chs[0][1:], "comments") or [])] if chs else None
+        msx = parse_sx(model)
+        mchs = sx_field(msx[2:], "changes") or []
+        mgot = [cl.sx_unquote(x) for x in (sx_field(mchs[0][1:], "comments") or [])] if mchs else None
+        if got != mgot:
+            ctx.violation(f"description lines {got} differ from the specification {mgot}", {"input": {"patch": c["patch"]}})
+        elif got is not None and got != c["want"]:
+            ctx.violation(f"description {got}: expected exactly the '#' lines directly above the header {c['want']}", {"input": {"patch": c["patch"]}})
+
+# --- C08 -------------------------------------------------------------------
+ILL_TYPED = [
+    ("@@\nvar x expression\n@@\n-foo(x)\n+bar.x\n", "package a\n\nfunc f() { foo(g(1)) }\n"),
+    ("@@\nvar x expression\n@@\n+x = bar(...)\n-x = foo(...)\n", "package a\n\nfunc f() { x = foo(1, 2) }\n"),
+    ("@@\nvar x expression\n@@\n-foo(x)\n+bar(... + x)\n", "package a\n\nfunc f() { foo(1) }\n"),
+    ("@@\nvar x expression\n@@\n-foo(x)\n+func x() {}\n", "package a\n\nfunc f() { foo(g(1)) }\n"),
+    ("@@\nvar x expression\n@@\n-foo(x)\n+goto x\n", "package a\n\nfunc f() { foo(g(1)) }\n"),
+    ("@@\nvar x expression\n@@\n-foo(x)\n+T{x: 1}.x\n", "package a\n\nfunc f() { foo(g(1)) }\n"),
+    ("@@\nvar x expression\n@@\n-import \"fmt\"\n+import x \"fmt\"\n\n-foo(x)\n+bar(x)\n", "package a\n\nimport \"fmt\"\n\nfunc f() { foo(g(1)); fmt.Println() }\n"),
+    ("@@\nvar x identifier\n@@\n-break x\n+continue x\n", "package a\n\nfunc f() {\n\tfor {\n\t\tbreak\n\t}\n}\n"),
+    ("@@\nvar x expression\n@@\n-return x\n+return x, ...\n", "package a\n\nfunc f() int { return 1 }\n"),
+    ("@@\n@@\n-foo(...)\n+bar(..., ...)\n", "package a\n\nfunc f() { foo(1, 2) }\n"),
+    ("@@\n@@\n for ... {\n-  foo()\n+  for ... { bar() }\n }\n", "package a\n\nfunc f() { for i := 0; i < 3; i++ { foo() } }\n"),
+    ("@@\n@@\n+for ... { bar() }\n-for ... { foo() }\n", "package a\n\nfunc f() { for i := 0; i < 3; i++ { foo() } }\n"),
+    ("@@\nvar x expression\n@@\n-x\n+y\n", "package a\n\nimport \"fmt\"\n\nfunc f(a int) { fmt.Println(a) }\n"),
+    ("@@\nvar x identifier\n@@\n-x\n+x.y\n", "package a\n\nfunc f(a int) { _ = a }\n\ntype T struct{ a int }\n"),
+]
+TRUNC = ["-func", "-func (", "-foo(func(", "+func() { var x int }", "-type", "-var", "-x := func(a", "-if", "-for ... {", "-switch x {", "-foo(", "-foo(...",
+         "-a.", "-[]", "-struct {", "-map[", "-\"unterminated", "-'", "-`raw", "-/* comment", "-import", "-import (", "-package", "-func (r", "-func f(a, ...",
+         "-go", "-defer", "-return ...", "-case x:", "-{", "-}", "-)", "-...", "-... ...", "-x...", "-...x", "-@", "-#", "-func f[", "-func f[T any", "-type T[", "-<-"]
+
+def mutate_bytes(rng, s):
+    b = bytearray(s.encode())
+    for _ in range(rng.randint(1, 3)):
+        k = rng.randrange(4)
+        pos = rng.randrange(len(b) + 1)
+        if k == 0 and b:
+            del b[pos % len(b)]
+        elif k == 1:
+            b[pos:pos] = rng.choice([b"(", b")", b"{", b"}", b"...", b"@", b"@@\n", b"\"", b"func ", b"\x00", b"\xff", b"#", b"\n", b"[", b"`", b"'"])
+        elif k == 2 and b:
+            b[pos % len(b)] = rng.randrange(256)
+        else:
+            b = b[:pos]
+    return b.decode("utf-8", "surrogateescape")
+
+@prop("C08")
+def c08(ctx):
+    ctx.rule = ("patches: (a) a table of truncated bodies (every prefix shape that starts a parameter list, block, literal, comment), "
+                "(b) every prefix (step 7 bytes) of valid generated patches, (c) byte-mutated valid patches (insert/delete/replace with "
+                "brackets, quotes, '...', '@@', NUL, 0xff), (d) a table of well-formed but ill-typed patches (expression metavariable in a "
+                "name position, elision moved between list kinds, '...' outside a list, metavariable as import name, nested for-dots); each "
+                "crossed with its own source file. Every case runs through patch.Parse + Apply in the harness (panics recovered and "
+                "reported, batches under a wall-clock limit, a batch that exceeds it is bisected to the hanging case) and a sample "
+                "through the CLI binary under timeout. The engine outcome class (ok / error) is also compared with the Lean model. "
+                "Non-trivial = the patch is not accepted-and-unmatched; distinct = distinct patch text.")
+    rng = random.Random(ctx.seed)
+    base = [c for c in gen_cases(ctx, "mix", 120 if ctx.tier == "quick" else 3000, ctx.seed) if len(c.get("patches", [])) == 1]
+    cases = []
+    for k, t in enumerate(TRUNC):
+        cases.append({"id": f"trunc{k}", "patches": ["@@\n@@\n" + t + "\n"], "src": "package a\n\nfunc f() { foo(1) }\n"})
+        cases.append({"id": f"truncp{k}", "patches": ["@@\n@@\n-foo(1)\n+" + t[1:] + "\n"], "src": "package a\n\nfunc f() { foo(1) }\n"})
+    for k, (p, s) in enumerate(ILL_TYPED):
+        cases.append({"id": f"ill{k}", "patches": [p], "src": s})
+    nb = 40 if ctx.tier == "quick" else 1500
+    for i, c in enumerate(base[:nb]):
+        p = c["patches"][0]
+        for cut in range(3, len(p), 7 if ctx.tier == "quick" else 3):
+            cases.append({"id": f"pre{i}_{cut}", "patches": [p[:cut]], "src": c["src"]})
+        for j in range(6 if ctx.tier == "quick" else 20):
+            cases.append({"id": f"mut{i}_{j}", "patches": [mutate_bytes(rng, p)], "src": c["src"]})
+    # run in batches with a watchdog
+    def run_batch(batch, limit):
+        d = ctx.scratch("c08")
+        pth = os.path.join(d, "in.jsonl")
+        with open(pth, "w") as f:
+            for c in batch:
+                f.write(json.dumps(c) + "\n")
+        try:
+            r = subprocess.run([ctx.harness, "api", "-inputs", pth, "-rep", "0"], stdout=subprocess.PIPE, stderr=subprocess.PIPE,
+                               text=True, timeout=limit, env=dict(os.environ, GOMEMLIMIT="2GiB"))
+        except subprocess.TimeoutExpired:
+            shutil.rmtree(d, ignore_errors=True)
+            return None
+        shutil.rmtree(d, ignore_errors=True)
+        if r.returncode != 0:
+            return "crash:" + r.stderr[-1500:]
+        return [json.loads(l) for l in r.stdout.splitlines() if l.strip()]
+    def explore(batch, limit):
+        out = run_batch(batch, limit)
+        if isinstance(out, list):
+            return [(c, o) for c, o in zip(batch, out)]
+        if len(batch) == 1:
+            return [(batch[0], {"hang": out is None, "crash": out if isinstance(out, str) else ""})]
+        mid = len(batch) // 2
+        return explore(batch[:mid], max(10, limit // 2)) + explore(batch[mid:], max(10, limit // 2))
+    chunks = [cases[i:i + 400] for i in range(0, len(cases), 400)]
+    with ThreadPoolExecutor(max_workers=8) as ex:
+        results = [r for rs in ex.map(lambda b: explore(b, 120), chunks) for r in rs]
+    for c, o in results:
+        ctx.evaluations += 1
+        kind = re.sub(r"\d+(_\d+)?$", "", c["id"])
+        if o.get("skipped"):
+            continue
+        if o.get("hang") or o.get("crash"):
+            ctx.violation("gopatch does not terminate on this patch" if o.get("hang") else "the process crashed: " + o.get("crash", "")[-300:],
+                          {"input": {"patches": c["patches"], "src": c["src"]}, "reproduce": "gopatch -p p.patch a.go (or patch.Parse + Apply)"})
+            continue
+        ctx.count(kind + ":" + ("panic" if o.get("panic") else "parse_err" if o.get("parse_err") else "err" if o.get("err") else "ok"))
+        if o.get("parse_err") or o.get("err") or o.get("panic"):
+            ctx.nontrivial.add(c["patches"][0])
+        if len(ctx.samples) < 4 and (o.get("parse_err") or o.get("err")) and kind in ("ill", "trunc", "mut"):
+            ctx.sample({"patch": c["patches"][0][:200], "outcome": (o.get("parse_err") or o.get("err"))[:160]})
+        if o.get("panic"):
+            ctx.violation("panic: " + o["panic"][:300], {"input": {"patches": c["patches"], "src": c["src"]},
+                                                         "reproduce": "patch.Parse(\"p.patch\", patch) then Apply(\"a.go\", src)"})
+    # CLI sample under timeout
+    sample = [c for c in cases if c["id"].startswith(("trunc", "ill"))] + rng.sample(cases, min(len(cases), 40 if ctx.tier == "quick" else 600))
+    def cli_one(c):
+        root = ctx.scratch("c08cli")
+        with open(os.path.join(root, "p.patch"), "wb") as f:
+            f.write(c["patches"][0].encode("utf-8", "surrogateescape"))
+        with open(os.path.join(root, "a.go"), "w") as f:
+            f.write(c["src"])
+        code, out, err = cl.gopatch(ctx.gopatch, root, ["-p", "p.patch", "--print-only", "a.go"], timeout=20)
+        shutil.rmtree(root, ignore_errors=True)
+        return c, code, err.decode("utf-8", "replace")
+    with ThreadPoolExecutor(max_workers=16) as ex:
+        for c, code, err in ex.map(cli_one, sample):
+            ctx.evaluations += 1
+            if code == "timeout":
+                ctx.violation("the gopatch binary did not terminate within 20 s", {"input": {"patches": c["patches"], "src": c["src"]}})
+            elif code not in (0, 1) or "panic:" in err or "goroutine " in err:
+                ctx.violation(f"the gopatch binary crashed (exit {code}): {err[-300:]}", {"input": {"patches": c["patches"], "src": c["src"]}})
+            elif code == 1 and not err.strip():
+                ctx.violation("non-zero exit without a diagnostic", {"input": {"patches": c["patches"], "src": c["src"]}})
+    # the "..." scanner (augment.find/rewrite) vs the Lean model Fnd.find/rewrite, incl. truncated input
+    def sides(patch):
+        try:
+            _, _, _, body = split_patch_text(patch)
+        except Exception:
+            return []
+        minus = "\n".join(l[1:] if l[:1] in "- " else l for l in body if l[:1] != "+") + "\n"
+        plus = "\n".join(l[1:] if l[:1] in "+ " else l for l in body if l[:1] != "-") + "\n"
+        return [minus, plus]
+    acases = []
+    for k, t in enumerate(TRUNC):
+        acases.append({"id": f"at{k}", "patch": t[1:]})
+        acases.append({"id": f"atn{k}", "patch": t[1:] + "\n"})
+    for i, c in enumerate(base[: (60 if ctx.tier == "quick" else 2000)]):
+        for j, side in enumerate(sides(c["patches"][0])):
+            acases.append({"id": f"as{i}_{j}", "patch": side})
+            for cut in range(1, len(side), 5 if ctx.tier == "quick" else 2):
+                acases.append({"id": f"ap{i}_{j}_{cut}", "patch": side[:cut]})
+    d = ctx.scratch("aug")
+    pth = os.path.join(d, "in.jsonl")
+    with open(pth, "w") as f:
+        for c in acases:
+            f.write(json.dumps(c) + "\n")
+    try:
+        r = run([ctx.harness, "augment", "-inputs", pth, "-out", d], timeout=3600)
+        with open(os.path.join(d, "augment.cases")) as fin:
+            m = subprocess.run([ctx.driver], stdin=fin, stdout=subprocess.PIPE, stderr=subprocess.PIPE, text=True, timeout=3600)
+        impl = open(os.path.join(d, "augment.impl")).read().splitlines()
+        model = m.stdout.splitlines()
+        if len(impl) != len(model) or len(impl) != len(acases):
+            ctx.broken("driver", f"augment stream: impl {len(impl)} model {len(model)} cases {len(acases)} {r.stderr[-500:]}")
+        for c, a, b in zip(acases, impl, model):
+            ctx.evaluations += 1
+            ctx.count("augment:" + ("err" if "(err)" in a else "ok"))
+            if "(hang)" in a or "(panic)" in a:
+                ctx.violation("the scan for '...' does not terminate on this patch body" if "(hang)" in a else "the scan for '...' panics",
+                              {"input": {"patch_body_side": c["patch"]}, "reproduce": "augment.Augment([]byte(side)); or a patch @@\\n@@\\n-<side>"})
+            elif "(skipped)" in a:
+                continue
+            elif a != b:
+                ctx.count("augment_model_differs")
+                ctx.broken("correspondence", f"augment stream: implementation and model differ on {c['patch'][:80]!r}: {a[:200]} vs {b[:200]}")
+    except subprocess.TimeoutExpired:
+        ctx.broken("harness", "augment stream timed out")
+    # engine outcome class vs the model on the ill-typed table and the generated stream
+    d = ctx.scratch("c08e")
+    pth = os.path.join(d, "in.jsonl")
+    with open(pth, "w") as f:
+        for c in [c for c in cases if c["id"].startswith("ill")]:
+            f.write(json.dumps(c) + "\n")
+    res = run_engine_batch(ctx, ["-inputs", pth], "c08ill") + engine_batches(ctx, "mix", 200, 6000, golden=False)
+    engine_projection(ctx, res, {"status"})
